@@ -91,7 +91,7 @@ theorem lookup_append_single (l : AL) (k : Nat) (v : List Rat) (q : Nat) :
 theorem FEq.append {f g : AL} (h : FEq f g) (k : Nat) (v : List Rat) : FEq (f ++ [(k, v)]) (g ++ [(k, v)]) := by
   intro q; rw [lookup_append_single, lookup_append_single, h q]
 
-theorem lookup_filter_ne (l : AL) (pn q : Nat) :
+theorem lookup_filter_ne6 (l : AL) (pn q : Nat) :
     (l.filter (·.1 != pn)).lookup q = if q == pn then none else l.lookup q := by
   induction l with
   | nil => simp [List.lookup]
@@ -114,7 +114,7 @@ theorem lookup_filter_ne (l : AL) (pn q : Nat) :
         simp [this]
 
 theorem FEq.filter {f g : AL} (h : FEq f g) (pn : Nat) : FEq (f.filter (·.1 != pn)) (g.filter (·.1 != pn)) := by
-  intro q; rw [lookup_filter_ne, lookup_filter_ne, h q]
+  intro q; rw [lookup_filter_ne6, lookup_filter_ne6, h q]
 
 theorem lookup_map_upd (l : AL) (pn : Nat) (row : List Rat) (q : Nat) :
     (l.map (fun (k, v) => if k == pn then (k, addVec v row) else (k, v))).lookup q =
